@@ -43,7 +43,7 @@ def cases(tier, rng, ifaces):
         else:
             msgs.append(bytes(rng.choice(b'X1"#; \n?:,*\'eE+-.') for _ in range(rng.randint(1, 20))) + b'\n')
     queries = [b'*IDN?\n', b'LONG?\n', b'ARB?\n', b'SYST:ERR?\n', b'ECHO:F64? -1.5e300\n', b'ECHO:F32? 1e-40\n', b'ECHO:I64? -9223372036854775808\n',
-               b'ECHO:QUAD? -1,#13abc,"s",7\n', b'SYST:ERR:COUN?\n', b'SYST:VERS?\n', b'NOPE\n', b'MANY 1,2,3,4,5,6,7,8,9,10,11,12\n']
+               b'ECHO:QUAD? -1,#13abc,"s",7\n', b'SET:F64 1.5 E3\n', b'ECHO:F32? -.25\t e-2\n', b'ECHO:F64? 1 . 5\n', b'SET:F32 + 1\n', b'SYST:ERR:COUN?\n', b'SYST:VERS?\n', b'NOPE\n', b'MANY 1,2,3,4,5,6,7,8,9,10,11,12\n']
     for i, m in enumerate(msgs + queries * 3):
         cap = rng.choice(echo.hl_caps())
         out.append(Case(f'ALLOC RUN echo hl{cap} {hx(m)}', oracle, {'kind': 'ALLOC-RUN'}))
